@@ -35,7 +35,8 @@ OPTS = [
     ("s", ["-s"]), ("I", ["-I"]), ("gMAP", ["-g", "MAP"]), ("gNOICE", ["-g", "NOICE"]), ("gATMEL", ["-g", "ATMEL"]),
     ("t", None), ("x", ["-x"]), ("xx", ["-x", "-x"]), ("n", ["-n"]), ("A", ["-A"]), ("r", ["-r", "1"]),
     ("E", ["-E", "errs.log"]), ("gnuerrors", ["-gnuerrors"]), ("LISTRADIX", None), ("P", ["-P"]), ("M", ["-M"]),
-    ("h", ["-h"]), ("SPLITBYTE", ["-SPLITBYTE", "."]),
+    ("h", ["-h"]), ("SPLITBYTE", ["-SPLITBYTE", "."]), ("noicemask", ["-g", "NOICE", "-noicemask", "255"]),
+    ("noicemask2", ["-g", "NOICE", "-noicemask", "6"]), ("Lwide", ["-L", "-OLIST", "w.lst"]),
     # the share-format switches -c/-p/-a are not in the property's list of report-only options and are not varied:
     # SHARED evaluates its symbols only when a share file is written, which marks them "used" (visible to IFUSED)
 ]
@@ -92,7 +93,8 @@ def render_gen(items):
         elif k == "listing":
             L.append("\tlisting %s" % ["off", "on", "noskipped", "purecode"][a % 4])
         elif k == "page":
-            L.append("\tpage %d" % (a % 90 + 10))
+            # (page length, and every other time a page width: listing lines beyond it are wrapped)
+            L.append("\tpage %d" % (a % 90 + 10) if a % 2 else "\tpage %d,%d" % (a % 90 + 10, [0, 20, 40, 72, 132, 255][a % 6]))
         elif k == "title":
             L.append("\ttitle \"t%d\"" % a)
         elif k == "macexp":
@@ -295,14 +297,18 @@ def execute(case):
         r0, p0, _, argv0, _ = one_run(t, ref, [], d0, "ref")
     if r0.timed_out:
         return engine.inconclusive("timeout", classes)
-    if "gen" in case:
-        classes.append("generated")
+    if "gen" in case or case.get("var"):
+        classes.append("generated" if "gen" in case else "golden-variant")
         if r0.status != 0 or p0 is None:
-            return engine.discarded("generated-program-invalid", classes)
-    if case.get("var"):
-        classes.append("golden-variant")
-        if r0.status != 0 or p0 is None:
-            return engine.discarded("variant-invalid", classes)
+            # the program does not assemble without report options: then it must not assemble with them either
+            if toks:
+                with run.Work("c17") as base:
+                    r1, p1, _, argv1, env1 = one_run(t, case, toks, base, "a")
+                if not r1.timed_out and r1.status == 0 and p1 is not None:
+                    return engine.bad("%s is rejected without report options (status %s) but assembles with %s"
+                                      % (case["test"], r0.status, toks), key, classes, argv=argv1, env=env1,
+                                      stderr_without=r0.err[-600:], src=t["src"].decode("latin-1")[:6000])
+            return engine.discarded("generated-program-invalid" if "gen" in case else "variant-invalid", classes)
     if r0.status != 0 or p0 is None:
         return engine.bad("reference run of %s fails: status %s" % (case["test"], r0.status), key, classes,
                           stderr=r0.err[-500:])
